@@ -351,6 +351,13 @@ func (w *World) proposalContent(op TxOp, v TxView) *governance.ProposalContent {
 	ep := v.Epoch()
 	zero := quantity.NewFromUint64(0)
 	one := quantity.NewFromUint64(1)
+	if op.Arg >= 16 {
+		// Three quarters of the proposals: a parameter change drawn from the full space of
+		// changeable fields of all modules.
+		if pc := paramChange(op.Arg-16, op.To*13+op.From*5+int(op.Fee), ep); pc != nil {
+			return pc
+		}
+	}
 	switch op.Arg % 8 {
 	case 0: // staking: zero vote and next-propose weights (propose stays)
 		ch := staking.ConsensusParameterChanges{FeeSplitWeightVote: zero, FeeSplitWeightNextPropose: zero, FeeSplitWeightPropose: one}
